@@ -34,6 +34,8 @@ n = int.from_bytes(data[:8], 'big')
 schema = pickle.loads(data[8:8 + n])
 docs = pickle.loads(data[8 + n:])
 from sim import histories, ops, canon
+from pool import pool
+pool.install_pool_peer()          # the simulated peer behind the pool's remote location hints
 out = {'globals': histories.globals_signature(schema), 'probes': []}
 blob = data[8:8 + n]
 for d in docs:
@@ -52,7 +54,7 @@ class C09(PoolCheck):
     LEVEL = 'exploration'
     GROUP = 1
     CASE_TIMEOUT = 180.0
-    FAMILIES = ('multi', 'multi2', 'chameleon', 'xsitype', 'keys', 'subst', 'fixed', 'ids', 'assert11', 'wild')
+    FAMILIES = ('multi', 'multi2', 'chameleon', 'xsitype', 'keys', 'subst', 'fixed', 'ids', 'assert11', 'wild', 'ondemand')
     RULE = ("case = (family, assembly variant [canonical | list constructor with a permuted order of the extra "
             "sources | build=False + add_schema/import_schema/include_schema in a permuted order + build()], then a "
             "seeded sequence of lifecycle steps [use an operation of the C10 menu, build() again, maps.clear()+build(), "
@@ -112,14 +114,18 @@ class C09(PoolCheck):
             assembly = {'kind': kind, 'order': order[:rng.randrange(1, 5)],
                         'spell': [rng.randrange(6) for _ in range(4)]}
         else:
-            assembly = {'kind': rng.choice(['canonical', 'build_false', 'text_source'])}
+            assembly = {'kind': rng.choice(getattr(fam, 'assemblies', ['canonical', 'build_false', 'text_source']))}
         steps = []
         m = histories.menu(e)
+        # a family that loads namespaces on demand: documents that extend the schema are kept out of the 'use' steps
+        # (what a used schema then answers is C10's question), the probes meet them on the stored/restored object
+        usable = [i for i, d in enumerate(e.docs) if not hasattr(fam, 'peer_pages') or d.name.startswith('od-valid-plain')
+                  or d.name == 'od-plain-baditem']
         for _ in range(rng.randrange(0, 6)):
             st = rng.choice(STEPS)
             if st == 'use':
                 op = dict(rng.choice(m))
-                op['doc'] = rng.randrange(len(e.docs))
+                op['doc'] = rng.choice(usable)
                 steps.append({'step': 'use', 'op': op})
             else:
                 steps.append({'step': st})
